@@ -1,9 +1,10 @@
 #!/usr/bin/env python3
 """copy the round-2 seeded changes from /tmp/seed2/<ID>/out/m<k> to /verif/seeded/<ID>_m<k>/ (not yet confirmed)"""
 import os, shutil, json, glob, sys
+SRC = os.environ.get("SEED_SRC", "/tmp/seed2"); ROUND = int(os.environ.get("SEED_ROUND", "2"))
 ids = sys.argv[1:] or [f"C{i:02d}" for i in range(1, 21)]
 for pid in ids:
-    for d in sorted(glob.glob(f"/tmp/seed2/{pid}/out/m*")):
+    for d in sorted(glob.glob(f"{SRC}/{pid}/out/m*")):
         k = os.path.basename(d)
         if not os.path.exists(d + "/patch.diff") or not os.path.exists(d + "/demo.rs"): 
             print("incomplete", d); continue
@@ -15,7 +16,7 @@ for pid in ids:
             m = json.load(open(dst + "/meta.json"))
         except Exception:
             m = {"property": pid, "mutant": k, "summary": "(meta.json missing or invalid)", "needs": ""}
-        m["round"] = 2
+        m["round"] = ROUND
         rt = open(dst + "/run.txt").read() if os.path.exists(dst + "/run.txt") else ""
         m.setdefault("confirmation", {})["demo_cmd"] = ("RUSTFLAGS=\"--cfg rarena_verif --check-cfg cfg(rarena_verif)\" " if "rarena_verif" in rt + open(dst + "/demo.rs").read() else "") + f"cargo test -p rarena-allocator --features std,memmap --test demo_{k[1:]} --offline"
         json.dump(m, open(dst + "/meta.json", "w"), indent=1)
